@@ -784,7 +784,9 @@ def _case(draw, tier, names):
     # accessors build namedtuples / dicts: distinct identifier-like names
     hdr = draw(st.lists(st.sampled_from(IDENT), min_size=nf, max_size=nf, unique=not dup))
     ragged = o.ragged and draw(st.booleans())
-    tbl = draw(gen.table(hdr, [CELL] * nf, max_rows=maxrows, ragged=ragged, extra=CELL))
+    # usually one row in four is ragged; sometimes every row is (so that no row reaches the last fields at all)
+    tbl = draw(gen.table(hdr, [CELL] * nf, max_rows=maxrows, ragged=ragged, extra=CELL,
+                         ragged_odds=draw(st.sampled_from([4, 4, 2, 1])) if ragged else 4))
     if name == "skipcomments":
         tbl = [tbl[0]] + [r for r in tbl[1:] if len(r) > 0]
     if name == "filldown" and False:
